@@ -309,6 +309,7 @@ class Lexer:
             if c == ".":
                 if self.peek() == ".":  # probably a range expression delimiter
                     self.backup()
+                    self.path_stack[-1].stop = self.pos
                     return
 
                 self.ignore()
